@@ -70,10 +70,10 @@ theorem lineOK_dropLast {r : List (Pt Int)} (h : ringOK r = true) : lineOK r.dro
   · simp only [List.length_dropLast]; omega
 
 /-- The words of a line are at least the MoveTo word. -/
-theorem encLine_words_ne_nil {c c' : Cur} {l : List (Pt Int)} {ws : List W}
+theorem encLine_words_ne_nil {c c' : Cur} {l : List (Pt Int)} {ws : List W} (hl : l ≠ [])
     (h : encLine c l = .ok (c', ws)) : ws ≠ [] := by
   cases l with
-  | nil => simp [encLine] at h
+  | nil => exact absurd rfl hl
   | cons p rest =>
     simp only [encLine, moveTo, Res.ok.injEq, Prod.mk.injEq] at h
     rw [← h.2]; simp
@@ -111,7 +111,7 @@ theorem decode_ring (c c' : Cur) (s : GD) (r : List (Pt Int)) (ws rest : List W)
     simp only [List.length_cons] at hu
     show s1.used + 1 + rest.length = s1.count
     omega
-  · have := encLine_words_ne_nil hel
+  · have := encLine_words_ne_nil (by rw [hdl]; simp) hel
     have : 1 ≤ wl.length := List.length_pos_iff.mpr this
     simp only [List.length_append, List.length_singleton]; omega
 
